@@ -294,10 +294,57 @@ func (e *Engine) observeParam(name string, v Val, st *State) ParamInfo {
 
 // ---- pieces not needed by the first clients; they bail so the function is reported out of reach.
 
+// appendBuiltin: Go's append. If the result fits the capacity the backing array is extended in
+// place (visible through every slice that shares it), otherwise a fresh array is allocated.
 func (e *Engine) appendBuiltin(f *frame, x *ssa.Call, args []Val) Val {
-	bail("append")
-	return Val{}
+	X := e.X
+	s, el := args[0], args[1]
+	st, ok := s.T.Underlying().(*types.Slice)
+	if !ok {
+		bail("append to %s", s.T)
+	}
+	elem := st.Elem()
+	elLen, elOff, elRef := X.Const(0, 64), X.Const(0, 64), X.Const(0, 32)
+	isStr := isString(el.T)
+	if len(el.C) >= 3 {
+		elRef, elOff, elLen = el.C[0], el.C[1], el.C[2]
+	}
+	newLen := X.BVAdd(s.ln(), elLen)
+	fits := X.Ule(newLen, s.cp())
+	if elLen.IsConst() && elLen.V == 0 {
+		return s
+	}
+	fresh := e.newRef(f.st)
+	newCap := X.Fresh("appcap", IntSort)
+	e.assume(X.And(X.Ule(newLen, newCap), X.Ule(newCap, X.Const(1<<41, 64))))
+	if e.frameOn && e.specDepth == 0 && !s.ref().IsConst() {
+		l := frameLoc{kind: "range", ref: s.ref(), keyPfx: "arr:" + typeKey(elem) + "/", lo: X.BVAdd(s.off(), s.ln()), hi: X.BVAdd(s.off(), newLen), text: "append"}
+		e.oblige("frame", "append in place", X.Or(X.Not(fits), e.locAllowed(l)), x.Pos())
+	}
+	for _, c := range comps(elem) {
+		key := "arr:" + typeKey(elem) + "/" + c.Suffix
+		ekey := key
+		if isStr {
+			ekey = "arr:uint8/"
+		}
+		h := e.heap(f.st, key, c.Sort)
+		eh := e.heap(f.st, ekey, c.Sort)
+		sArr := X.Select(h, s.ref())
+		eArr := X.Select(eh, elRef)
+		j := X.BVar("aj", IntSort)
+		// fresh array: old elements then the appended ones
+		fr := X.Lambda(j, X.Ite(X.Ult(j, s.ln()), X.Select(sArr, X.BVAdd(s.off(), j)), X.Select(eArr, X.BVAdd(elOff, X.BVSub(j, s.ln())))))
+		// in place: the appended elements after the current length
+		lo := X.BVAdd(s.off(), s.ln())
+		j2 := X.BVar("aj", IntSort)
+		ip := X.Lambda(j2, X.Ite(X.And(X.Ule(lo, j2), X.Ult(j2, X.BVAdd(s.off(), newLen))), X.Select(eArr, X.BVAdd(elOff, X.BVSub(j2, lo))), X.Select(sArr, j2)))
+		h = X.Store(h, s.ref(), X.Ite(fits, ip, sArr))
+		h = X.Store(h, fresh, fr)
+		e.setHeap(f.st, key, h)
+	}
+	return Val{T: s.T, C: []*smt.Term{X.Ite(fits, s.ref(), fresh), X.Ite(fits, s.off(), X.Const(0, 64)), newLen, X.Ite(fits, s.cp(), newCap)}}
 }
+
 func (e *Engine) lookup(f *frame, x *ssa.Lookup) Val {
 	X := e.X
 	base := e.operand(f, x.X)
